@@ -136,6 +136,14 @@ class ScriptFace(DummyFace):
         self.stop.set()
 
 
+def exc_label(exc: BaseException) -> str:
+    """stable class label: the most derived class defined by builtins / asyncio / ndn (pygtrie.ShortKeyError -> KeyError)"""
+    for c in type(exc).__mro__:
+        if c.__module__ in ('builtins', 'asyncio.exceptions', 'struct') or c.__module__.startswith('ndn.'):
+            return c.__name__
+    return type(exc).__name__
+
+
 def lib_site(exc: BaseException) -> str:
     """innermost function of the ndn package on the traceback of exc (stable call-site label)"""
     site = '?'
@@ -195,7 +203,7 @@ class Rig:
         exc = ctx.get('exception')
         if exc is None:
             return 'NoException', ctx.get('message', '?')[:60]
-        return type(exc).__name__, lib_site(exc)
+        return exc_label(exc), lib_site(exc)
 
 
 def run_case(coro_fn, front: str):
@@ -256,7 +264,7 @@ def classify(exc: BaseException | None):
         return 'canceled', None
     if isinstance(exc, types.ValidationFailure):
         return 'invalid', exc.result
-    return 'error', type(exc).__name__
+    return 'error', exc_label(exc)
 
 
 def quiet_logging():
@@ -265,7 +273,7 @@ def quiet_logging():
 
 class ViolationSink:
     """keeps at most ``per_key`` shortest witnesses per key"""
-    def __init__(self, module: str, per_key: int = 3):
+    def __init__(self, module: str, per_key: int = 1):
         self.module = module
         self.per_key = per_key
         self.by_key = {}
